@@ -158,7 +158,7 @@ def run_shard(shard, tier):
             res["keys"][hk] = (content_key(m), key)
             res["distinct_nontrivial"] += 1
         res["evaluations"] += 1
-        for f in fails[:3]:
+        for f in fails[:20]:
             res["violations"].append({"kind": "state", "history": [hist[0], list(hist[1])], "what": f"[{hist[0]}{''.join(' -> ' + x for x in hist[1])}] {f}",
                                       "class": f.split(":")[0][:60]})
     if shard[1]:
